@@ -161,21 +161,18 @@ func (ev *Ev) ident(name string) *Val {
 			name = name[:i]
 		}
 		seen := 0
-		for _, b := range ev.fr.Fn.Blocks {
-			for _, ins := range b.Instrs {
-				if a, ok := ins.(*ssa.Alloc); ok && a.Comment == name {
-					seen++
-					if want != 0 && seen != want {
-						continue
-					}
-					if !a.Heap {
-						if v, ok := ev.st.Cells[a]; ok {
-							found = v
-						}
-					} else if p, ok := ev.fr.Regs[a]; ok {
-						found = ev.fr.load(ev.st, p, a.Type().(*types.Pointer).Elem())
-					}
+		cands := ev.localCells(name)
+		for _, a := range cands {
+			seen++
+			if want != 0 && seen != want {
+				continue
+			}
+			if !a.Heap {
+				if v, ok := ev.st.Cells[a]; ok {
+					found = v
 				}
+			} else if p, ok := ev.fr.Regs[a]; ok {
+				found = ev.fr.load(ev.st, p, a.Type().(*types.Pointer).Elem())
 			}
 		}
 		if found != nil {
@@ -183,14 +180,12 @@ func (ev *Ev) ident(name string) *Val {
 		}
 		if seen > 0 && want == 0 {
 			// a local variable that has not been declared yet on this path: its zero value
-			for _, b := range ev.fr.Fn.Blocks {
-				for _, ins := range b.Instrs {
-					if a, ok := ins.(*ssa.Alloc); ok && a.Comment == name {
-						if _, isParam := ev.fr.Params[name]; !isParam {
-							return zeroVal(a.Type().(*types.Pointer).Elem())
-						}
-					}
-				}
+			_, isParam := ev.fr.Params[name]
+			if _, aliased := ev.fr.ParamAlias[name]; aliased {
+				isParam = true
+			}
+			if !isParam {
+				return zeroVal(cands[0].Type().(*types.Pointer).Elem())
 			}
 		}
 		if v, ok := ev.fr.envTop[name]; ok {
@@ -205,6 +200,11 @@ func (ev *Ev) ident(name string) *Val {
 				if fv.Name() == name {
 					return ev.fr.load(ev.st, ev.fr.Closure.Binds[i], fv.Type().(*types.Pointer).Elem())
 				}
+			}
+			if i := renamedFreeVar(ev.fr.Fn, name); i >= 0 {
+				fv := ev.fr.Fn.FreeVars[i]
+				ev.c.note("%s: captured variable %q of the contract is resolved to the one now named %q (same type, same capture position)", ev.fr.Fn.String(), name, fv.Name())
+				return ev.fr.load(ev.st, ev.fr.Closure.Binds[i], fv.Type().(*types.Pointer).Elem())
 			}
 		}
 	}
@@ -406,8 +406,67 @@ func (ev *Ev) lookupLocal(name string) (*Val, bool) {
 				}
 			}
 		}
+		if len(ev.localCells(name)) > 0 {
+			return nil, true
+		}
+		if ev.fr.Closure != nil && renamedFreeVar(ev.fr.Fn, name) >= 0 {
+			return nil, true
+		}
 	}
 	return nil, false
+}
+
+// localCells: the stack/heap cells of the function that the contract's name denotes. A parameter that the contract header
+// renames positionally is looked up under its source name; a name the function no longer declares is placed by the
+// declaration positions it had in the unchanged tree (localtab.go).
+func (ev *Ev) localCells(name string) []*ssa.Alloc {
+	src := name
+	if a, ok := ev.fr.ParamAlias[name]; ok {
+		src = a
+	}
+	var cands []*ssa.Alloc
+	for _, a := range fnAllocs(ev.fr.Fn) {
+		if a.Comment == src {
+			cands = append(cands, a)
+		}
+	}
+	if len(cands) == 0 && src == name && !ev.knownElsewhere(name) {
+		cands = renamedLocals(ev.fr.Fn, name)
+		if len(cands) > 0 {
+			ev.c.note("%s: local %q of the contract is resolved to the variable now named %q (same type, same declaration position)", ev.fr.Fn.String(), name, cands[0].Comment)
+		}
+	}
+	return cands
+}
+
+// knownElsewhere: the name denotes a parameter, an environment binding, a closure variable or a package-level object, so it
+// is not a candidate for the renamed-local fallback.
+func (ev *Ev) knownElsewhere(name string) bool {
+	if ev.fr == nil {
+		return true
+	}
+	if _, ok := ev.fr.envTop[name]; ok {
+		return true
+	}
+	if _, ok := ev.fr.Params[name]; ok {
+		return true
+	}
+	if ev.env != nil {
+		if _, ok := ev.env[name]; ok {
+			return true
+		}
+	}
+	if ev.fr.Fn != nil {
+		for _, fv := range ev.fr.Fn.FreeVars {
+			if fv.Name() == name {
+				return true
+			}
+		}
+	}
+	if ev.pkg != nil && ev.pkg.Scope().Lookup(name) != nil && !tableKnows(ev.fr.Fn, name) {
+		return true // (a local of the unchanged tree shadows a package-level object of the same name)
+	}
+	return false
 }
 
 func (ev *Ev) importedPkg(name string) *types.Package {
@@ -863,6 +922,9 @@ func (ev *Ev) call(e *SExpr) *Val {
 		return boolVal(g)
 	case "int":
 		v := ev.eval(args[0])
+		if v.K == KArr && v.X != nil && v.X.S != SInt {
+			return mathVal(arrAsInt(v)) // a byte array as the little-endian integer the models use for array values
+		}
 		return mathVal(v.X)
 	case "ptr":
 		if args[0].Kind != "str" {
